@@ -663,7 +663,7 @@ mod tests {
             assert_eq!(encode(Code::Gamma, i, End::BE).to_string01(), g[i as usize]);
             assert_eq!(encode(Code::Delta, i, End::BE).to_string01(), d[i as usize]);
         }
-        assert_eq!(encode(Code::Omega, 10, End::BE).to_string01(), "1110010");
+        assert_eq!(encode(Code::Omega, 10, End::BE).to_string01(), "1110110");
         let le: String = encode(Code::Omega, 10, End::LE).to_string01().chars().rev().collect();
         assert_eq!(le, "0011111");
         assert_eq!(encode(Code::Gamma, 4, End::LE).to_string01().chars().rev().collect::<String>(), "01100");
